@@ -159,6 +159,7 @@ func scenarios(tier string) []vlib.Scenario {
 	// close timeout 0
 	for _, pol := range []string{"none", "interval"} {
 		add(params{Policy: pol, QoS: message.QoSReliable, Ops: []string{"wA1", "wB1"}, Writers: 1, CT0: true})
+		add(params{Policy: pol, QoS: message.QoSReliable, Ops: []string{"wA1", "wB1"}, Writers: 1, CT0: true, P: 1})
 	}
 	// the options of an earlier stream of the process must not change this one (defaults are shared through pointers)
 	for _, pol := range []string{"none", "immediate"} {
